@@ -42,7 +42,7 @@ fn dec_ascii<T: Idx, Q: MocQty<T>>(text: &str) -> String {
 }
 
 /// (qty name, width, depth, ranges) of any 1-D FITS MOC.
-fn read_fits(buf: &[u8]) -> Result<(String, u32, u8, Vec<Range<u64>>), String> {
+pub fn read_fits(buf: &[u8]) -> Result<(String, u32, u8, Vec<Range<u64>>), String> {
   macro_rules! one {
     ($mt:expr, $q:expr, $w:expr) => {
       match $mt {
@@ -77,7 +77,7 @@ fn read_fits(buf: &[u8]) -> Result<(String, u32, u8, Vec<Range<u64>>), String> {
 }
 
 /// Header cards up to END; returns (header length in bytes, NAXIS1, NAXIS2) of the SECOND HDU (the table).
-fn fits_structure(buf: &[u8]) -> Option<(usize, u64, u64)> {
+pub fn fits_structure(buf: &[u8]) -> Option<(usize, u64, u64)> {
   let mut pos = 0usize;
   let mut hdu = 0;
   let (mut n1, mut n2) = (0u64, 0u64);
